@@ -539,6 +539,12 @@ def native_replay(job, res, raw_inputs, wd):
             if a > 8:
                 break
             continue
+        err_txt = p.stderr.decode(errors="replace")
+        if p.returncode != 0 and re.search(r"requested allocation size|allocator is out of memory|failed to allocate|allocation-size-too-big|out-of-memory", err_txt):
+            notes.append("attempt %d: the native run could not allocate the counterexample's object sizes (not a reproduction)" % a)
+            if a > 8:
+                break
+            continue
         if p.returncode != 0:
             return True, "attempt %d (buffer-content fill #%d), exit %d:\n%s" % (
                 a, a, p.returncode, "\n".join(p.stderr.decode(errors="replace").splitlines()[:24])), " ".join(cmd)
